@@ -222,7 +222,21 @@ func main() {
 		for _, e := range infraErr {
 			fmt.Fprintln(os.Stderr, "vcheck: ERROR "+e)
 		}
-		exit(2)
+		// A unit that cannot be built or run is an infrastructure error (exit 2) —
+		// unless another unit of the same property did run and reports a violation:
+		// then the violation is the more informative verdict (a refactoring that
+		// changes an internal signature one unit calls must not hide what the other
+		// units see). Evidence is not written in that case.
+		anyViolation := false
+		for _, r := range all {
+			if len(r.Violations) > 0 {
+				anyViolation = true
+			}
+		}
+		if !anyViolation {
+			exit(2)
+		}
+		*noEvidence = true
 	}
 	if len(all) == 0 {
 		fatal("no unit ran")
